@@ -357,6 +357,7 @@ func driverScenario(s drvScn) sched.Scenario {
 				}
 				srv := &dev.NCServer{Hello: dev.HelloDoc(caps, "9"), Echo: s.echo}
 				srv.Behave = func(i int, req dev.NCReq) (string, dev.NCBehavior) { return s.p.xml, dev.ReplyNow }
+				lfHash := strings.Contains(s.p.xml, "\n##") // the framed reply has LF ## before its terminator (known finding)
 				srv.Chunks = func(i int, b []byte) [][]byte {
 					var parts [][]byte
 					st := 0
@@ -364,7 +365,13 @@ func driverScenario(s drvScn) sched.Scenario {
 						parts = append(parts, b[st:c])
 						st = c
 					}
-					return append(parts, b[st:])
+					parts = append(parts, b[st:])
+					for _, pt := range parts {
+						if bytes.HasPrefix(pt, []byte("##")) { // chunk data starting with ## follows the header's LF
+							lfHash = true
+						}
+					}
+					return parts
 				}
 				tr := dev.NewFake(e, srv)
 				srv.Out = tr.Inject
@@ -391,7 +398,7 @@ func driverScenario(s drvScn) sched.Scenario {
 					}
 					if err != nil || r == nil {
 						sig := "c02:driver-reply-lost"
-						if strings.Contains(s.p.xml, "\n##") {
+						if lfHash {
 							sig = "c02:driver-framing-fooled-by-LF##-in-data"
 						}
 						e.Violate(sig, "%s: Get failed: %v", cse, err)
@@ -401,7 +408,7 @@ func driverScenario(s drvScn) sched.Scenario {
 					want := refPayload(s.p.xml)
 					if r.Result != want {
 						sig := "c02:driver-result-differs"
-						if strings.Contains(s.p.xml, "\n##") {
+						if lfHash {
 							sig = "c02:driver-framing-fooled-by-LF##-in-data"
 						}
 						e.Violate(sig, "%s: Result %q want %q (Failed=%v)", cse, tr2(r.Result), tr2(want), r.Failed)
@@ -439,7 +446,8 @@ func scenarios(tier string) []sched.Scenario {
 			checkRaw(w, append([]byte("\n#2\nab"), a), "after-chunk")
 		}
 	}})
-	drv := []pl{payloads[5], payloads[6], payloads[7], payloads[8], payloads[10], payloads[12], {"nlhashw", okReply("<a>x\n#2\ny\n##z</a>"), false}, hashLine}
+	drv := []pl{payloads[5], payloads[6], payloads[7], payloads[8], payloads[10], payloads[12], {"nlhashw", okReply("<a>x\n#2\ny\n##z</a>"), false}, hashLine,
+		{"hashend", okReply("<d>window ##\nnext ##\n</d>"), false}} // '##' ends a line without starting one: only a search anchored at a line start of the whole buffer tells it from the terminator
 	for _, p := range drv {
 		for _, v := range []string{"1.0", "1.1"} {
 			for _, echo := range []bool{false, true} {
